@@ -404,13 +404,22 @@ def m_iter_method(ex, f, a):
             if r.idx == 0: return NONE()
             o = _concrete_enum(ex, callf(ex, a[1], r.fields[0]))
             if o.idx == 1: return o
-    if op in ('position', 'rposition'):
+    if op == 'position':
         i = 0
         while True:
             r = it.pull(ex)
             if r.idx == 0: return NONE()
             if ex.branch_bool(callf(ex, a[1], r.fields[0])): return some(i)
             i += 1
+    if op == 'rposition':
+        # searches from the back; the index counts from the front (ExactSizeIterator): found only by the differential probes
+        if any(s_[0] in ('filter', 'filter_map') for s_ in it.stages): raise Unsupported('rposition over a filtered iterator')
+        i = len(it.clone().drain(ex))
+        while True:
+            r = it.pull(ex, True)
+            if r.idx == 0: return NONE()
+            i -= 1
+            if ex.branch_bool(callf(ex, a[1], r.fields[0])): return some(i)
     if op == 'count': return len(it.drain(ex))
     if op == 'len': return len(it.clone().drain(ex)) if not any(s_[0] in ('map', 'filter', 'filter_map', 'inspect') for s_ in it.stages) else _unsup('len of effectful iterator')
     if op == 'last':
